@@ -90,9 +90,9 @@ class RefRun:
     __slots__ = ("status", "value", "globals", "steps", "why", "float_ops", "max_mag", "calls")
 
 
-def run_ref(module, fname, args, globals_init, f32_mode=False, max_steps=400000):
+def run_ref(module, fname, args, globals_init, f32_mode=False, max_steps=400000, floor_mod=False):
     r = RefRun()
-    it = sem.Interp(module, globals_init, f32_mode=f32_mode, max_steps=max_steps)
+    it = sem.Interp(module, globals_init, f32_mode=f32_mode, max_steps=max_steps, floor_mod=floor_mod)
     r.value = None
     r.globals = None
     r.why = None
